@@ -46,6 +46,6 @@ TraceSpec == TraceInit /\ [][TraceNext]_vars
 TraceAccepted ==
   LET d == TLCGet("stats").diameter
   IN  IF d - 1 = Len(Rec) THEN TRUE
-      ELSE /\ PrintT(<<"M", "first unmatched event", d, Rec[d]>>)
+      ELSE /\ PrintT("M|first unmatched event|" \o ToString(d) \o "|" \o ToJson(Rec[d]))
            /\ FALSE
 =============================================================================
